@@ -267,6 +267,42 @@ def check_type_strictness(chk):
                     + (f" rejects {sorted(missing)}" if missing else ''), node=test)
 
 
+def _hand_written_escape(chk, lf, ret):
+    """regexEscape written as CLASS.sub(<backslash + match>, string): the class must list every regex metacharacter and nothing by accident (no ranges)"""
+    from ..rx import Rx
+    from ..core import Regex
+    v = ret.value
+    if not (isinstance(v, ast.Call) and isinstance(v.func, ast.Attribute) and v.func.attr == 'sub' and isinstance(v.func.value, ast.Name) and len(v.args) == 2
+            and norm(v.args[1]) == lf.targets[0]):
+        return False
+    rname = v.func.value.id
+    rg = lf.mod.const(rname, 'C15.H') if rname in lf.mod.assigns else None
+    if not isinstance(rg, Regex):
+        return False
+    rx = Rx(rg.pattern, rg.flags, rname)
+    items = rx.tree.kids
+    if len(items) != 1 or items[0].kind != 'in' or items[0].a:
+        return False
+    ranges = [i for i in items[0].b if i[0] == 'range']
+    lits = {i[1] for i in items[0].b if i[0] == 'lit'}
+    special = set('.^$*+?{}[]\\|()')
+    if ranges:
+        chk.bad('C15.H', lf.mod, lf.pyname, f'{rname} = {rg.pattern}',
+                f'the escape class of regexEscape contains the range {ranges[0][1]}-{ranges[0][2]} (a "-" between two characters): characters such as digits are escaped too, and an escaped digit '
+                f'is a back-reference, so the escaped pattern no longer matches exactly the original string', node=ret)
+        return True
+    missing = special - lits
+    if missing:
+        chk.bad('C15.H', lf.mod, lf.pyname, f'{rname} lacks {sorted(missing)}', f'the escape class of regexEscape does not contain the metacharacter(s) {sorted(missing)}: a string containing them is '
+                f'not matched literally by its escaped form', node=ret)
+        return True
+    repl = const_str(v.args[0])
+    if repl in ('\\\\\\g<0>', '\\\\\\0') or (repl and repl.endswith('\\g<0>') and repl.startswith('\\\\')):
+        chk.ok('C15.H', f'regexEscape = {rname}.sub(backslash + match): the class lists every regex metacharacter and no range')
+        return True
+    return False
+
+
 def check_wrappers(chk):
     libfuncs = {lf.name: lf for lf in library_functions(chk.repo, 'C15.H')}
     for name, forms in WRAPPERS.items():
@@ -284,6 +320,8 @@ def check_wrappers(chk):
                 ldefs[a.targets[0].id] = None if a.targets[0].id in ldefs else a.value
         got = norm(inline(rets[0].value, {k: v for k, v in ldefs.items() if v is not None}))
         accepted = [f.format(*lf.targets) for f in forms]
+        if name == 'regexEscape' and _hand_written_escape(chk, lf, rets[0]):
+            continue
         # reassigned arguments (e.g. end = len(x) when None) are part of the documented default handling; other rewrites are not
         if got in accepted:
             chk.ok('C15.H', f'{name} = {got}')
